@@ -265,6 +265,15 @@ func (k Keeper) StartDistributionProcess(ctx sdk.Context, states *[]types.State,
 		if share.Destination.Type == types.Main {
 			// the share stays in the main account (no state), where the next subdistributor with the
 			// main source picks it up; it must still be deducted from the primary share
+			if !calculatedShare.IsZero() {
+				distributions = append(distributions, &types.Distribution{
+					Subdistributor: subDistributor.Name,
+					ShareName:      share.Name,
+					Sources:        subDistributor.Sources,
+					Destination:    &share.Destination,
+					Amount:         calculatedShare,
+				})
+			}
 			continue
 		}
 		if !calculatedShare.IsZero() {
@@ -306,6 +315,16 @@ func (k Keeper) StartDistributionProcess(ctx sdk.Context, states *[]types.State,
 			return findAccountState(localRemains, &accountDefault)
 		}
 		localRemains = k.addSharesToAccountState(ctx, localRemains, &accountDefault, defaultShare, findFunc)
+		distributions = append(distributions, &types.Distribution{
+			Subdistributor: subDistributor.Name,
+			ShareName:      subDistributor.GetPrimaryShareName(),
+			Sources:        subDistributor.Sources,
+			Destination:    &subDistributor.Destinations.PrimaryShare,
+			Amount:         defaultShare,
+		})
+	}
+	if accountDefault.Type == types.Main {
+		// nothing to book (the coins stay in the main account), but the distribution is still reported
 		distributions = append(distributions, &types.Distribution{
 			Subdistributor: subDistributor.Name,
 			ShareName:      subDistributor.GetPrimaryShareName(),
